@@ -235,8 +235,12 @@ type c08cb struct {
 	mu   *sync.Mutex
 }
 
-func (c c08cb) OnComplete(any)            { c.mu.Lock(); *c.done = append(*c.done, c.id); c.mu.Unlock() }
-func (c c08cb) OnCompleteError(err error) { c.mu.Lock(); *c.done = append(*c.done, -1-c.id); c.mu.Unlock() }
+func (c c08cb) OnComplete(any) { c.mu.Lock(); *c.done = append(*c.done, c.id); c.mu.Unlock() }
+func (c c08cb) OnCompleteError(err error) {
+	c.mu.Lock()
+	*c.done = append(*c.done, -1-c.id)
+	c.mu.Unlock()
+}
 
 func (C08) Exec(ops []string, outs []string) {
 	var q server.QuorumAckTracker
